@@ -1,5 +1,9 @@
 import AasVerif.Lemmas.PyEmit
 import AasVerif.Lemmas.PyParen
+import AasVerif.Lemmas.PyParseSem
+import AasVerif.Lemmas.PyTrace
+import AasVerif.Lemmas.InferSimple
+import AasVerif.Lemmas.TraceSpec
 import AasVerif.Lemmas.PyRules
 import AasVerif.Lemmas.SdkVerify
 import AasVerif.Lemmas.SdkExact
@@ -78,13 +82,221 @@ theorem emit_invariant_parens_justified_partial (cfg : Cfg) (e : Expr) (x : PyEx
 
 /-- Non-vacuity: `not (self.a < 3) or self.b` meets the hypotheses and is transpiled. -/
 example :
-    let self := Expr.name selfName
+    let self := Expr.name PyEmit.selfName
     let e : Expr := .impl (.cmp (.member self [97]) .lt (.const (.int 3))) (.member self [98])
     simple e = true ∧ noNan e = true ∧
       transpile cfg0 [] e = .ok (.boolop false
         [.not (.paren (.compare (.attr .that .prop [97]) (.cmp .lt) (.int 3))), .attr .that .prop [98]]) := by
   intro self e
   exact ⟨by decide, by decide, rfl⟩
+
+/-! ## (b) transpiler: the emitted text read back by Python's grammar
+
+`print x` is the token sequence of the emitted text (`Model/PyParse.lean`; compared token by
+token with CPython's `tokenize` of the real transpiler output on every run), `parse` reads a
+token sequence along Python's expression grammar (`disjunction → conjunction → inversion →
+comparison → sum → factor → primary → atom`, comparison chains and `not in` recognised as such
+and reported `outside`; compared with CPython's `ast.parse` on every run), `PyEmit.strip x` is the
+tree without `paren` nodes.
+
+Full statement (false): `transpile cfg vs e = .ok x → parse (print x) = .ok (PyEmit.strip x) []`. -/
+
+/-- Negation witness: the text emitted for `(-5)[0]` is `-5[0]`, which Python's grammar reads as
+`-(5[0])`. -/
+theorem emit_roundtrip_full_fails :
+    ¬ (∀ (cfg : Cfg) (vs : List Text) (e : Expr) (x : PyExpr),
+        transpile cfg vs e = .ok x → parse (print x) = .ok (PyEmit.strip x) []) := by
+  intro h
+  have h1 := h cfg0 [] (.index (.const (.int (-5))) (.const (.int 0)))
+    (.subscript (.neg (.int 5)) (.int 0)) rfl
+  have h2 : parse (print (.subscript (.neg (.int 5)) (.int 0))) =
+      .ok (.neg (.subscript (.int 5) (.int 0))) [] := rfl
+  rw [h2] at h1
+  simp [PyEmit.strip] at h1
+
+/-- **reader_roundtrip.** Whenever every omitted parenthesis is justified by the precedence
+table (`parenOK`), Python's grammar reads the printed token sequence as exactly the expression
+printed — for every `PyExpr`, transpiler output or not. -/
+theorem reader_roundtrip (x : PyExpr) (h : parenOK x = true) : parse (print x) = .ok (PyEmit.strip x) [] :=
+  parse_print x h
+
+/-- **emit_roundtrip (partial).** The text the transpiler emits is read by Python's grammar as
+the tree the transpiler meant (same hypothesis as `emit_parens_justified_partial`: member
+instances are primaries, no index access on a constant). -/
+theorem emit_roundtrip_partial (cfg : Cfg) (vs : List Text) (e : Expr) (x : PyExpr)
+    (hs : simple e = true) (h : transpile cfg vs e = .ok x) : parse (print x) = .ok (PyEmit.strip x) [] :=
+  parse_print x (good cfg e vs x hs h).ok
+
+/-- … and the whole `if not <expr>:` condition. -/
+theorem emit_invariant_roundtrip_partial (cfg : Cfg) (e : Expr) (x : PyExpr)
+    (hs : simple e = true) (h : transpileInvariant cfg e = .ok x) : parse (print x) = .ok (PyEmit.strip x) [] :=
+  parse_print x (emit_invariant_parens_justified_partial cfg e x hs h)
+
+/-- **emit_text_preserves (partial).** Semantic form: the meaning Python gives to the emitted
+*text* (read with the grammar, then evaluated) is the meaning of the source expression, in every
+environment — value or exception. -/
+theorem emit_text_preserves_partial (cfg : Cfg) (vs : List Text) (e : Expr) (x : PyExpr)
+    (hs : simple e = true) (hfloat : noNan e = true) (h : transpile cfg vs e = .ok x) (ρ : Env) :
+    evalToks ρ (print x) = some (Expr.eval ρ e) := by
+  rw [evalToks_print x (good cfg e vs x hs h).ok ρ, preserves cfg e vs x hfloat h ρ]
+
+/-- … and of the emitted `if` condition. -/
+theorem emit_invariant_text_preserves_partial (cfg : Cfg) (e : Expr) (x : PyExpr)
+    (hs : simple e = true) (hfloat : noNan e = true) (h : transpileInvariant cfg e = .ok x) (ρ : Env) :
+    evalToks ρ (print x) =
+      some (match Expr.eval ρ e with
+       | .val v => .val (.bool (!v.truthy ρ.fops))
+       | err => err) := by
+  rw [evalToks_print x (emit_invariant_parens_justified_partial cfg e x hs h) ρ,
+    emit_invariant_preserves cfg e x hfloat h ρ]
+
+/-- The reader does not mistake a comparison chain for a nested comparison: `a < b < c` is
+reported as a chain, the emitted `(a < b) < c` is read back as the nested comparison, and
+`not a == b` is `not (a == b)`. -/
+theorem reader_chain_and_not :
+    let a := PyExpr.var [97]; let b := PyExpr.var [98]; let c := PyExpr.var [99]
+    parse [.var [97], .cmp .lt, .var [98], .cmp .lt, .var [99]] = .outside ∧
+    parse (print (.compare (.paren (.compare a (.cmp .lt) b)) (.cmp .lt) c)) =
+      .ok (.compare (.compare a (.cmp .lt) b) (.cmp .lt) c) [] ∧
+    parse [.kwNot, .var [97], .cmp .eq, .var [98]] = .ok (.not (.compare a (.cmp .eq) b)) [] ∧
+    parse [.var [97], .kwNot, .kwIn, .var [98]] = .outside :=
+  ⟨rfl, rfl, rfl, rfl⟩
+
+/-- Non-vacuity: the example invariant above is transpiled to text that is read back. -/
+example :
+    let self := Expr.name PyEmit.selfName
+    let e : Expr := .impl (.cmp (.member self [97]) .lt (.const (.int 3))) (.member self [98])
+    ∃ x, transpile cfg0 [] e = .ok x ∧ simple e = true ∧
+      print x = [.kwNot, .lpar, .that, .dot, .attrName .prop [97], .cmp .lt, .int 3, .rpar, .kwOr,
+                 .that, .dot, .attrName .prop [98]] ∧
+      parse (print x) = .ok (.boolop false
+        [.not (.compare (.attr .that .prop [97]) (.cmp .lt) (.int 3)), .attr .that .prop [98]]) [] :=
+  ⟨_, rfl, by decide, rfl, rfl⟩
+
+/-! ## (b) transpiler: every expression the type inference accepts
+
+`_transpile_invariant` (and the transpilation of verification functions) runs the type inference
+first and transpiles only what it accepted.  `infer` (`Model/Expr/Infer.lean`, the model of
+`type_inference._Inferrer` of C07) only gives a class / enumeration / list type to names,
+member and index accesses and calls, so what it accepts is `simple`: the `_partial`
+hypotheses above hold for **all** accepted expressions. -/
+
+/-- What the type inference accepts meets the hypothesis of the parenthesis theorems. -/
+theorem accepted_is_simple (Γ : TEnv) (e : Expr) (τ : Ty) (hty : inferC Γ e = .ok τ) : simple e = true :=
+  infer_simple e Γ [] τ hty
+
+/-- **emit_parens_justified.** For every expression the type inference accepts, the transpiler
+omits parentheses only where Python's precedence table allows it. -/
+theorem emit_parens_justified (Γ : TEnv) (e : Expr) (τ : Ty) (hty : inferC Γ e = .ok τ)
+    (cfg : Cfg) (vs : List Text) (x : PyExpr) (h : transpile cfg vs e = .ok x) : parenOK x = true :=
+  emit_parens_justified_partial cfg vs e x (accepted_is_simple Γ e τ hty) h
+
+/-- **emit_roundtrip.** For every expression the type inference accepts, Python's grammar reads
+the emitted text as the tree the transpiler meant. -/
+theorem emit_roundtrip (Γ : TEnv) (e : Expr) (τ : Ty) (hty : inferC Γ e = .ok τ)
+    (cfg : Cfg) (vs : List Text) (x : PyExpr) (h : transpile cfg vs e = .ok x) :
+    parse (print x) = .ok (PyEmit.strip x) [] :=
+  emit_roundtrip_partial cfg vs e x (accepted_is_simple Γ e τ hty) h
+
+/-- … and the whole `if not <expr>:` condition of an invariant. -/
+theorem emit_invariant_roundtrip (Γ : TEnv) (e : Expr) (τ : Ty) (hty : inferC Γ e = .ok τ)
+    (cfg : Cfg) (x : PyExpr) (h : transpileInvariant cfg e = .ok x) :
+    parse (print x) = .ok (PyEmit.strip x) [] :=
+  emit_invariant_roundtrip_partial cfg e x (accepted_is_simple Γ e τ hty) h
+
+/-- **emit_text_preserves.** For every accepted expression, the meaning Python gives to the emitted
+*text* is the meaning of the source expression, in every environment — value or exception. -/
+theorem emit_text_preserves (Γ : TEnv) (e : Expr) (τ : Ty) (hty : inferC Γ e = .ok τ)
+    (cfg : Cfg) (vs : List Text) (x : PyExpr) (hfloat : noNan e = true) (h : transpile cfg vs e = .ok x) (ρ : Env) :
+    evalToks ρ (print x) = some (Expr.eval ρ e) :=
+  emit_text_preserves_partial cfg vs e x (accepted_is_simple Γ e τ hty) hfloat h ρ
+
+/-- … and of the emitted `if` condition: true exactly when the invariant is falsy, raising what it raises. -/
+theorem emit_invariant_text_preserves (Γ : TEnv) (e : Expr) (τ : Ty) (hty : inferC Γ e = .ok τ)
+    (cfg : Cfg) (x : PyExpr) (hfloat : noNan e = true) (h : transpileInvariant cfg e = .ok x) (ρ : Env) :
+    evalToks ρ (print x) =
+      some (match Expr.eval ρ e with
+       | .val v => .val (.bool (!v.truthy ρ.fops))
+       | err => err) :=
+  emit_invariant_text_preserves_partial cfg e x (accepted_is_simple Γ e τ hty) hfloat h ρ
+
+/-- Non-vacuity: `not (self.a < 3) or self.b` is accepted by the inference for a class with an
+`int` property `a` and a `bool` property `b`, and is transpiled. -/
+example :
+    let D : Decls := ⟨[([67], .cls ⟨[([97], .prim .int), ([98], .prim .bool)], [], [], []⟩)], [], []⟩
+    let self := Expr.name PyEmit.selfName
+    let e : Expr := .impl (.cmp (.member self [97]) .lt (.const (.int 3))) (.member self [98])
+    inferC (TEnv.forSelf D [67]) e = .ok .bool ∧ noNan e = true ∧ ∃ x, transpile cfg0 [] e = .ok x := by
+  intro D self e
+  exact ⟨by decide, by decide, _, rfl⟩
+
+/-! ## (b) transpiler: evaluation order
+
+`Expr.trace ρ e` / `PyExpr.trace ρ x` (`Model/EvalOrder.lean`): the operations that can raise —
+name lookups, attribute accesses, subscriptions, comparisons, `in`, `+`/`-`, calls, starts of
+iterations, `range(…)`, f-string formatting — with their operand values, in the order Python
+performs them (short-circuiting of `and` / `or` / implication, `any` / `all` stopping at the
+deciding element, everything stopping at the first exception). -/
+
+/-- **emit_order_preserves.** The emitted expression performs exactly the operations of the
+source expression, on the same values, in the same order, in every environment.  With
+`emit_preserves` (same outcome): it raises the same exception *at the same operation*, and it
+never performs an operation (a call, an attribute access) that the source short-circuits away. -/
+theorem emit_order_preserves (cfg : Cfg) (vs : List Text) (e : Expr) (x : PyExpr)
+    (hfloat : noNan e = true) (h : transpile cfg vs e = .ok x) (ρ : Env) :
+    PyExpr.trace ρ x = Expr.trace ρ e :=
+  trace_preserves cfg e vs x hfloat h ρ
+
+/-- … and the whole `if not <expr>:` condition (the negation adds no operation). -/
+theorem emit_invariant_order_preserves (cfg : Cfg) (e : Expr) (x : PyExpr)
+    (hfloat : noNan e = true) (h : transpileInvariant cfg e = .ok x) (ρ : Env) :
+    PyExpr.trace ρ x = Expr.trace ρ e := by
+  simp only [transpileInvariant, Res.bind_eq_ok] at h
+  obtain ⟨y, hy, h⟩ := h
+  cases h
+  simp only [PyExpr.trace, trace_parenUnless, trace_preserves cfg e [] y hfloat hy ρ]
+
+/-- **trace_pinpoints_raise.** What the trace means: when the source expression evaluates to a
+value, no operation of its trace raised; when it raises, the LAST operation of the trace raised
+exactly that exception and no operation before it raised (`TraceOK`).  (`wfBool`: no `and` / `or`
+without operands, which Python cannot write.) -/
+theorem trace_pinpoints_raise (e : Expr) (ρ : Env) (hw : wfBool e = true) :
+    TraceOK (Expr.trace ρ e) (Expr.eval ρ e) :=
+  trace_spec e ρ hw
+
+/-- **emit_raises_at_same_operation.** The emitted expression raises exactly when the source
+raises, the same exception, at the same operation: its trace is the trace of the source
+(`emit_order_preserves`), its outcome the outcome of the source (`emit_preserves`), and in that
+trace the operation that raised is the last one. -/
+theorem emit_raises_at_same_operation (cfg : Cfg) (vs : List Text) (e : Expr) (x : PyExpr)
+    (hfloat : noNan e = true) (hw : wfBool e = true) (h : transpile cfg vs e = .ok x) (ρ : Env) :
+    PyExpr.trace ρ x = Expr.trace ρ e ∧ PyExpr.eval ρ x = Expr.eval ρ e ∧
+      TraceOK (PyExpr.trace ρ x) (PyExpr.eval ρ x) := by
+  refine ⟨trace_preserves cfg e vs x hfloat h ρ, preserves cfg e vs x hfloat h ρ, ?_⟩
+  rw [trace_preserves cfg e vs x hfloat h ρ, preserves cfg e vs x hfloat h ρ]
+  exact trace_spec e ρ hw
+
+/-- The order statement is strictly stronger than `emit_preserves`: `a.x or b.x` and
+`b.x or a.x` have the same outcome where both `a` and `b` are `None` (`AttributeError`), but
+different traces (the operation that raises is the access on `a` resp. on `b`); and where `a.x`
+is truthy the second operand is not touched. -/
+theorem order_is_observable :
+    let e1 : Expr := .or [.member (.name [97]) [120], .member (.name [98]) [120]]
+    let e2 : Expr := .or [.member (.name [98]) [120], .member (.name [97]) [120]]
+    let env (vars : List (Text × Val)) : Env :=
+      ⟨vars, fun _ => none, fun _ _ => none, ⟨fun _ _ _ => .otherError, fun _ _ _ => .otherError, fun _ => false, id⟩,
+        fun _ => .otherError⟩
+    let ρ := env [([97], .none), ([98], .none)]
+    let ρ' := env [([97], .inst 0 [67] [([120], .bool true)]), ([98], .none)]
+    Expr.eval ρ e1 = Expr.eval ρ e2 ∧ Expr.trace ρ e1 ≠ Expr.trace ρ e2 ∧
+      Expr.trace ρ' e1 = [⟨.load [97] (.val (.inst 0 [67] [([120], .bool true)])), none⟩,
+        ⟨.getattr (.inst 0 [67] [([120], .bool true)]) [120], none⟩] := by
+  intro e1 e2 env ρ ρ'
+  refine ⟨rfl, ?_, rfl⟩
+  have h1 : Expr.trace ρ e1 = [⟨.load [97] (.val .none), none⟩, ⟨.getattr .none [120], some .noneDeref⟩] := rfl
+  have h2 : Expr.trace ρ e2 = [⟨.load [98] (.val .none), none⟩, ⟨.getattr .none [120], some .noneDeref⟩] := rfl
+  rw [h1, h2]
+  simp
 
 /-! ## (a) parse rules -/
 
